@@ -19,7 +19,7 @@ from harness import common, gen
 from harness.props.c02 import dist_close, lean_dist, lean_ops, records_key
 from harness.scripted import enumerate_branches
 
-MODULES = ['CirqVerif.Props.C09', 'CirqVerif.Props.C09b', 'NonVacuity.ComplexModel']
+MODULES = ['CirqVerif.Props.C09', 'CirqVerif.Props.C09b', 'CirqVerif.Props.C09c', 'NonVacuity.ComplexModel']
 
 
 def rand_channel(cirq, rng):
@@ -483,6 +483,15 @@ def check_insertion_model(ctx, cirq, n):
         got = [o for o in out.all_operations() if o.qubits and o.qubits[0].x >= 10]
         ctx.count('check', 'noise-model:insertion-rule')
         ctx.case(['insertion', [repr(cirq.OpIdentifier(*k)) for k in keys], repr(moment)], True)
+        # theorem-backed and independent of the order the keys are walked in (C09_insertion_key_minimal): the key whose operation was inserted
+        # for `op` matches it and no matching key is a proper subtype of it
+        by_op = {repr(v): k for k, v in zip(keys, added.values())}
+        for op, ins in zip([o for o in moment if any(contains(k, o) for k in keys)], got if len(got) == len([o for o in moment if any(contains(k, o) for k in keys)]) else []):
+            kk = by_op.get(repr(ins))
+            if kk is None or not contains(kk, op) or any(contains(k2, op) and proper_sub(k2, kk) for k2 in keys):
+                ctx.report_witness('noise:insertion-rule:minimal', 'the noise inserted for an operation belongs to a key that does not match it or is not a most specific matching key',
+                                   {'lines': [{'keys': [repr(cirq.OpIdentifier(*k)) for k in keys], 'moment': repr(moment), 'op': repr(op)}], 'impl_out': [repr(ins)], 'spec_out': ['a minimal matching key'],
+                                    'theorem_or_correspondence': 'C09_insertion_key_minimal'})
         if sorted(map(repr, got)) != sorted(map(repr, want)):
             ctx.report_witness('noise:insertion-rule', 'InsertionNoiseModel does not insert the operation of the most specific (else first) matching key',
                                {'lines': [{'keys': [repr(cirq.OpIdentifier(*k)) for k in keys], 'moment': repr(moment)}], 'impl_out': [sorted(map(repr, got))], 'spec_out': [sorted(map(repr, want))],
